@@ -28,7 +28,7 @@ TEXT = {
     },
     "C05": {
         "technique": "model-based property testing (rapid): generated Next/Advance histories over generated posting lists, exclusions and flags vs. a filtered list + cursor model",
-        "level_text": "Exploration: each case draws a posting list (fixed chunk sizes 1..7 over few documents, adaptive multi-chunk over >1024 documents, 1-hit terms of merged segments, absent terms), an exclusion bitmap of five classes, the three flags, optionally ReplaceActual(subset), and a history of up to 25 Next/Advance calls with targets placed relative to the cursor and chunk boundaries; after every call the returned posting (number; frequency/norm when any flag is set; locations when requested) must equal the model's, nil must stay nil, Count() must equal the non-excluded postings. A >65535-document family adds Advance targets around the roaring container boundary.",
+        "level_text": "Exploration: each case draws a posting list (fixed chunk sizes 1..7 over few documents, adaptive multi-chunk over >1024 documents, 1-hit terms of merged segments, absent terms), an exclusion bitmap of five classes, the three flags, optionally ReplaceActual(subset) - in a third of those cases the caller then narrows that same bitmap in place and hands it in again -, and a history of up to 25 Next/Advance calls with targets placed relative to the cursor and chunk boundaries; after every call the returned posting (number; frequency/norm when any flag is set; locations when requested) must equal the model's, nil must stay nil, Count() must equal the non-excluded postings. A >65535-document family adds Advance targets around the roaring container boundary.",
         "level_note": "Trusts the model list (validated against New by C01) and the API contract on Advance targets.",
     },
     "C08": {
